@@ -2,6 +2,7 @@ package main
 
 import (
 	"fmt"
+	"os"
 	"go/ast"
 	"go/token"
 	"go/types"
@@ -76,6 +77,9 @@ func (fr *Frame) callFn(st *State, site ssa.Instruction, fn *ssa.Function, args 
 	key := v.funcKey(fn)
 	if fr.top {
 		for i, a := range args {
+			if t := argTypeOf(fn, i); t != nil {
+				a = wrapTyped(a, t) // struct arguments passed by value keep their type (field selection in specifications)
+			}
 			st.srcVar[fmt.Sprintf("callarg%d", i)] = a
 			st.srcAdr[fmt.Sprintf("callarg%d", i)] = false
 		}
@@ -169,6 +173,9 @@ func (fr *Frame) inline(st *State, fn *ssa.Function, args []Value, bindings []Va
 	depth := len(st.envs)
 	nf.run(fn.Blocks[0], nil, st, nil)
 	if len(nf.returns) == 0 {
+		if os.Getenv("GCV_TRACE") != "" {
+			fmt.Fprintf(os.Stderr, "trace: inlined callee %s has no returning path\n", fn.String())
+		}
 		unsupPath()
 	}
 	for i := range nf.returns {
@@ -228,8 +235,17 @@ func (fr *Frame) applyContract(st *State, site ssa.Instruction, c *Contract, fn 
 	}
 	old := st.clone()
 	// havoc modifies
+	havocVars := map[*Term]bool{}
+	var havocObjs []*Object
 	for _, lv := range c.Modifies {
-		fr.havocLvalue(st, se, lv, "h!"+fn.Name())
+		if nv := fr.havocLvalue(st, se, lv, "h!"+fn.Name()); nv != nil {
+			collectScalarVars(nv, havocVars)
+			if e, err := parseSpec(lv); err == nil {
+				if pv, ok := se.eval(e.Parts[0]).(*PtrV); ok && pv.Obj != nil {
+					havocObjs = append(havocObjs, pv.Obj)
+				}
+			}
+		}
 	}
 	// result
 	res := fn.Signature.Results()
@@ -324,17 +340,157 @@ func (fr *Frame) applyContract(st *State, site ssa.Instruction, c *Contract, fn 
 			st.ghosts[fmt.Sprintf("%s_%s_%d", fn.Name(), n, st.cnt["callghost:"+fn.Name()])] = t
 		}
 	}
+	var ets []*Term
 	for _, e := range c.Ensures {
 		if e.Name == "result" && res.Len() == 0 {
 			continue
 		}
-		st.pc = F.And(st.pc, se2.evalBool(e.E))
+		et := se2.evalBool(e.E)
+		if traceOn && et.IsFalse() {
+			fmt.Fprintf(os.Stderr, "trace: contract of %s: clause [%s] evaluates to false at this call site\n", fn.Name(), e.Name)
+		}
+		ets = append(ets, et)
+	}
+	// Definitional postconditions: a clause "h == t" in which h is one of the cells this call has just given an
+	// arbitrary value, h carries no machine range (an element of an abstract ring) and t speaks about other
+	// values only, defines h. The cell then holds t itself instead of a variable constrained by an equation:
+	// the same states, but identities over callee results become identities of polynomials.
+	if len(havocVars) > 0 && v.curLayerKey != "" {
+		def := map[*Term]*Term{}
+		try := func(h, t *Term) {
+			if h.Op != OVar || !havocVars[h] || def[h] != nil {
+				return
+			}
+			if _, _, ranged := F.Range(h); ranged {
+				return
+			}
+			if mentionsAny(t, havocVars) {
+				return
+			}
+			def[h] = t
+		}
+		var walk func(t *Term)
+		walk = func(t *Term) {
+			switch t.Op {
+			case OAnd:
+				for _, a := range t.Args {
+					walk(a)
+				}
+			case OEq:
+				if t.Args[0].S == SInt {
+					try(t.Args[0], t.Args[1])
+					try(t.Args[1], t.Args[0])
+				}
+			}
+		}
+		for _, et := range ets {
+			walk(et)
+		}
+		if len(def) > 0 {
+			for i := range ets {
+				ets[i] = F.Subst(ets[i], def)
+			}
+			for _, o := range havocObjs {
+				if cv, ok := st.mem[o]; ok {
+					st.mem[o] = substValue(F, cv, def)
+				}
+			}
+			for n, t := range se2.ghostLocal {
+				se2.ghostLocal[n] = F.Subst(t, def)
+			}
+			if fr.top {
+				for n, t := range st.ghosts {
+					if strings.HasPrefix(n, fn.Name()+"_") {
+						st.ghosts[n] = F.Subst(t, def)
+					}
+				}
+			}
+		}
+	}
+	for _, et := range ets {
+		st.pc = F.And(st.pc, et)
 	}
 	if c.Assumed != "" {
 		v.assume(fmt.Sprintf("assumed contract of %s (%s)", v.funcKey(fn), c.Assumed))
 	}
 	v.usedContracts[v.funcKey(fn)] = true
 	return result
+}
+
+// collectScalarVars: the integer variables that make up a freshly havoced value
+func collectScalarVars(x Value, out map[*Term]bool) {
+	switch a := x.(type) {
+	case *Term:
+		if a.Op == OVar && a.S == SInt {
+			out[a] = true
+		}
+	case *AggV:
+		for _, e := range a.Elems {
+			collectScalarVars(e, out)
+		}
+	case *TypedAgg:
+		collectScalarVars(a.A, out)
+	}
+}
+
+func mentionsAny(t *Term, vs map[*Term]bool) bool {
+	seen := map[*Term]bool{}
+	var rec func(t *Term) bool
+	rec = func(t *Term) bool {
+		if seen[t] {
+			return false
+		}
+		seen[t] = true
+		if t.Op == OVar {
+			return vs[t]
+		}
+		for _, a := range t.Args {
+			if rec(a) {
+				return true
+			}
+		}
+		return false
+	}
+	return rec(t)
+}
+
+// substValue applies a substitution to the scalar cells of a value (pointers, slices and arrays are left alone)
+func substValue(F *Factory, x Value, m map[*Term]*Term) Value {
+	switch a := x.(type) {
+	case *Term:
+		return F.Subst(a, m)
+	case *AggV:
+		es := make([]Value, len(a.Elems))
+		for i, e := range a.Elems {
+			es[i] = substValue(F, e, m)
+		}
+		return &AggV{es}
+	case *TypedAgg:
+		if in, ok := substValue(F, a.A, m).(*AggV); ok {
+			return &TypedAgg{in, a.T}
+		}
+	case *IteV:
+		return &IteV{C: F.Subst(a.C, m), A: substValue(F, a.A, m), B: substValue(F, a.B, m)}
+	}
+	return x
+}
+
+// argTypeOf: static type of the i-th actual argument of fn (receiver first), nil if not known
+func argTypeOf(fn *ssa.Function, i int) types.Type {
+	if i < len(fn.Params) {
+		return fn.Params[i].Type()
+	}
+	sig := fn.Signature
+	if r := sig.Recv(); r != nil {
+		if i == 0 {
+			return r.Type()
+		}
+		i--
+	}
+	if i < sig.Params().Len() {
+		return sig.Params().At(i).Type()
+	}
+	return nil
 }
 
 func recvName(t types.Type) string {
@@ -372,7 +528,7 @@ func resultAlias(e *SpecExpr, i, n int) string {
 	return ""
 }
 
-func (fr *Frame) havocLvalue(st *State, se *SpecEnv, lv string, prefix string) {
+func (fr *Frame) havocLvalue(st *State, se *SpecEnv, lv string, prefix string) (fresh Value) {
 	v := fr.v
 	e, err := parseSpec(lv)
 	if err != nil {
@@ -384,16 +540,18 @@ func (fr *Frame) havocLvalue(st *State, se *SpecEnv, lv string, prefix string) {
 	switch p := val.(type) {
 	case *PtrV:
 		if p.Obj == nil {
-			return
+			return nil
 		}
 		cur := v.getPath(v.content(st, p.Obj), p.Path)
-		st.mem[p.Obj] = v.setPath(v.content(st, p.Obj), p.Path, v.freshLike(name, cur))
+		fresh = v.freshLikeT(name, cur, v.typeAtPathOrNil(p.Obj.Type, p.Path))
+		st.mem[p.Obj] = v.setPath(v.content(st, p.Obj), p.Path, fresh)
+		return fresh
 	case *SliceV:
 		if p.Obj == nil {
-			return
+			return nil
 		}
 		cur := v.getPath(v.content(st, p.Obj), p.Path)
-		nv := v.freshLike(name, cur)
+		nv := v.freshLikeT(name, cur, v.typeAtPathOrNil(p.Obj.Type, p.Path))
 		st.mem[p.Obj] = v.setPath(v.content(st, p.Obj), p.Path, nv)
 		// a callee that may modify a slice can only reach the elements of its window [off, off+cap): the rest of
 		// the backing array is unchanged (frame fact for symbolic arrays)
@@ -412,6 +570,73 @@ func (fr *Frame) havocLvalue(st *State, se *SpecEnv, lv string, prefix string) {
 	default:
 		unsup("modifies %q is not an lvalue (%T)", lv, val)
 	}
+	return nil
+}
+
+// typeAtPathOrNil: the static type of the cell at path inside an object of type t, or nil when it cannot be told.
+func (v *Verifier) typeAtPathOrNil(t types.Type, path []PE) (out types.Type) {
+	if t == nil {
+		return nil
+	}
+	defer func() {
+		if r := recover(); r != nil {
+			if _, isU := r.(unsupported); !isU {
+				panic(r)
+			}
+			out = nil
+		}
+	}()
+	return v.typeAtPath(t, path)
+}
+
+// freshLikeT returns a fresh symbolic value with the same shape as cur; the ranges of its scalar cells come from
+// the static type t of the cell (a cell that currently holds a small constant is NOT a small cell). When the type
+// is not known the range is inferred from the current value (freshLike).
+func (v *Verifier) freshLikeT(name string, cur Value, t types.Type) Value {
+	F := v.F
+	if t == nil {
+		return v.freshLike(name, cur)
+	}
+	switch c := cur.(type) {
+	case *Term:
+		if v.isAbstract(t) {
+			return F.Var(name, v.abstractSort(t))
+		}
+		if c.S == SInt {
+			if ii, ok := intKind(t); ok {
+				return F.RangedVar(name, ii.lo(), ii.hi())
+			}
+		}
+		return v.freshLike(name, cur)
+	case *AggV:
+		if v.isAbstract(t) {
+			return v.freshLike(name, cur)
+		}
+		es := make([]Value, len(c.Elems))
+		switch u := t.Underlying().(type) {
+		case *types.Struct:
+			if u.NumFields() != len(c.Elems) {
+				return v.freshLike(name, cur)
+			}
+			for i := range es {
+				es[i] = v.freshLikeT(fmt.Sprintf("%s_%d", name, i), c.Elems[i], u.Field(i).Type())
+			}
+		case *types.Array:
+			for i := range es {
+				es[i] = v.freshLikeT(fmt.Sprintf("%s_%d", name, i), c.Elems[i], u.Elem())
+			}
+		case *types.Slice:
+			for i := range es {
+				es[i] = v.freshLikeT(fmt.Sprintf("%s_%d", name, i), c.Elems[i], u.Elem())
+			}
+		default:
+			return v.freshLike(name, cur)
+		}
+		return &AggV{es}
+	case *IteV:
+		return v.freshLikeT(name, c.A, t)
+	}
+	return v.freshLike(name, cur)
 }
 
 // freshLike returns a fresh symbolic value with the same shape as cur.
